@@ -9,6 +9,7 @@ CONSTANTS
   Zooms <- ZoomsQ
   Warps <- WarpsQ
   Order0Warps <- Order0Q
+  Ops <- BaseOps
 INVARIANT Registered
 INVARIANT ValidInsideOriginal
 INVARIANT Emit
